@@ -64,6 +64,7 @@ P = {
          "Every fault class named by the property (missing directory, path is a directory, read-only location via EACCES/EROFS, device full via /dev/full and injected ENOSPC at the first and at the k-th write, plus EIO/EDQUOT/EMFILE, short writes, EINTR) is provoked for SVG and PNG output; the shim logs every fault actually delivered; Ok(()) requires the file to equal the in-memory rendering, a delivered hard fault requires Err(_) through ConvertError::from and a normal exit.",
          "Faults are injected at the libc boundary; kernel-level partial failures (e.g. at close/fsync) are not modelled because the code under test does not call them.", "5/C19"),
 }
+FUZZ = {"C01", "C02", "C04", "C05", "C06", "C09", "C10"}
 REL_NOTE = " Every run ends with a release-profile stage: the same monitors re-run the quick workload (other seeds) against fast_qr compiled at opt-level 3 without overflow checks and debug assertions; jobs are executed in a seeded shuffled order so every worker thread sees big and small symbols interleaved."
 ALL = ["C%02d" % i for i in range(1, 20)]
 
@@ -84,7 +85,7 @@ def main():
                 "engine": "vcheck",
                 "level_claimed": {"category": cat, "text": text, "design_ref": f"DESIGN.md section {ref}"},
                 "level_note": note + REL_NOTE,
-                "technique": tech + "; release-profile stage (same monitors against fast_qr built without overflow checks / debug assertions)",
+                "technique": tech + ("; coverage-guided libFuzzer stage judged by the same oracle (thorough)" if pid in FUZZ else "") + "; release-profile stage (same monitors against fast_qr built without overflow checks / debug assertions)",
             })
         else:
             na.append({"property_id": pid, "reason": "check under construction in this session; the technique applies (see DESIGN.md section 5) and the entry moves to checks once its monitor is built and silent on the unchanged tree"})
@@ -100,7 +101,7 @@ def main():
         },
         "engines": [
             {"name": "vcheck", "path": "harness/vcheck", "serves_properties": [c["property_id"] for c in checks],
-             "kind_free_text": "Rust harness: executes the real fast_qr (path dependency on /repo, profile with overflow checks and debug assertions) under generated workloads on 16 worker threads; per-property monitors compare recorded executions with an independent ISO 18004 reference model (harness/oracle); sanitizer stages (Miri/TSan/ASan) and an LD_PRELOAD I/O fault injector are driven from the same binary"},
+             "kind_free_text": "(thorough tier also runs harness/fuzz, a libFuzzer target linking the real fast_qr and the oracle crate, and the sanit workload under Miri/TSan/ASan) Rust harness: executes the real fast_qr (path dependency on /repo, profile with overflow checks and debug assertions) under generated workloads on 16 worker threads; per-property monitors compare recorded executions with an independent ISO 18004 reference model (harness/oracle); sanitizer stages (Miri/TSan/ASan) and an LD_PRELOAD I/O fault injector are driven from the same binary"},
         ],
         "checks": checks,
         "not_applicable": na,
